@@ -150,6 +150,23 @@ def multi_column_match(rng):
     return "enum Cl { Rd, Gn, Bl(int32) }\n" + body + "fn main() {\n" + "\n".join(calls) + "\n    ()\n}\n"
 
 
+EXTERNS = [("strings", "ToUpper", "(s: string) -> string", '{f}("a")'), ("strings", "ToLower", "(s: string) -> string", '{f}("B")'), ("strconv", "Quote", "(s: string) -> string", '{f}("q")'),
+           ("path", "Base", "(p: string) -> string", '{f}("a/b")'), ("path/filepath", "Ext", "(p: string) -> string", '{f}("a.txt")'), ("html", "EscapeString", "(s: string) -> string", '{f}("<")'),
+           ("net/url", "QueryEscape", "(s: string) -> string", '{f}("a b")'), ("unicode/utf8", "RuneCountInString", "(s: string) -> int32", 'int32_to_string({f}("ab"))'),
+           ("math/bits", "OnesCount32", "(x: uint32) -> int32", "int32_to_string({f}(7u32))"), ("os", "Getenv", "(k: string) -> string", '{f}("HOME")')]
+
+
+def many_externs(rng):
+    """a program that uses 3-7 Go packages through extern declarations, declared in a random order"""
+    pick = rng.sample(EXTERNS, rng.randint(3, 7))
+    decls, uses = [], []
+    for i, (pkg, go, sig_, use) in enumerate(pick):
+        decls.append('extern "go" "%s" "%s" ext%d%s' % (pkg, go, i, sig_))
+        uses.append("    let _ = string_println(%s);" % use.format(f="ext%d" % i))
+    rng.shuffle(decls)
+    return "\n".join(decls) + "\nfn main() {\n" + "\n".join(uses) + "\n    ()\n}\n"
+
+
 def many_errors(rng):
     """several independent errors in one program: impls missing several trait methods, unknown names, wrong types, duplicate impls"""
     ms = rng.sample(["aa", "bb", "cc", "dd", "ee", "ff", "gg"], rng.randint(3, 6))
@@ -223,6 +240,11 @@ def check(run):
     gsrcs += [genprog.closure_program(rng) for _ in range(6 if q else 80)]
     gsrcs += [genericgen.Gen(rng).program(n_stmts=4, depth=2)[0] for _ in range(6 if q else 60)]
     gsrcs += [multi_column_match(rng) for _ in range(12 if q else 200)]
+    # several Go packages reached through extern declarations: the import block must not depend on hashing
+    sys.path.insert(0, os.path.dirname(os.path.abspath(__file__)))
+    import c02 as c02mod
+
+    gsrcs += c02mod.EXTERN_PROGRAMS + [many_externs(rng) for _ in range(4 if q else 40)]
     # rejected programs: the same diagnostics in the same order (several independent errors per program)
     sys.path.insert(0, os.path.dirname(os.path.abspath(__file__)))
     import c04 as c04mod
